@@ -33,6 +33,9 @@ extern "C" int harness()
 #ifdef ASSUME_BOUNDS
     ASSUME_BOUNDS(c, pre);
 #endif
+#if defined(BUILDER_FRIENDLY) && defined(BUILDER_OK)
+    __vf_assume(BUILDER_OK(pre)); // lifting query: start from a state the replay's state builder reaches directly
+#endif
 #ifdef KF_TTL0 /* known-finding case split (ut_map/ut_set with a configured TTL of exactly 0) */
     if (T_PURGE)
         __vf_assume(KF_TTL0 ? pre.ttl == 0 : pre.ttl > 0);
